@@ -203,7 +203,9 @@ fn check_interp<A: Attr>(t: [(f32, f32); 3], zi: usize, r: &mut Report, fam: &st
     let zscale = [1.0f32, 5.9604645e-8, 1024.0][zi / 27 % 3];
     let zs = [ZS[zi % 3] * zscale, ZS[zi / 3 % 3] * zscale, ZS[zi / 9 % 3] * zscale];
     // perspective-correct attribute a_k, handed to the rasterizer pre-divided: v_k = a_k * z_k
-    let a: [Vec<f32>; 3] = std::array::from_fn(|k| (0..A::N).map(|c| [0.0f32, 1.0, 0.25][(k + c) % 3] + 0.37 * c as f32).collect());
+    // (zi >= 81: the same attribute values offset by +64 - a range of 1 on values whose f32 spacing is 7.6e-6)
+    let aoff = [0.0f32, 64.0][zi / 81 % 2];
+    let a: [Vec<f32>; 3] = std::array::from_fn(|k| (0..A::N).map(|c| [0.0f32, 1.0, 0.25][(k + c) % 3] + 0.37 * c as f32 + aoff).collect());
     let v: [Vec<f32>; 3] = std::array::from_fn(|k| a[k].iter().map(|x| x * zs[k]).collect());
     let key = |cl: &str| format!("{cl}|{fam}|{}|{t:?}|z={zs:?}", A::NAME);
     let case = || obj! {"kind" => "interp", "type" => A::NAME, "fam" => fam, "zi" => zi, "t" => J::Arr(t.iter().flat_map(|p| [fbits(p.0), fbits(p.1)]).collect())};
@@ -482,12 +484,14 @@ fn main() {
                 if name.starts_with("large") || name.starts_with("tall") {
                     // hundreds of thousands of fragments per triangle: two depth assignments, two types
                     for zi in [5usize, 19] { check_interp::<f32>(t, zi, r, name); check_interp::<(f32, Vec2)>(t, zi, r, name); }
+                    check_interp::<f32>(t, 81 + 5, r, &format!("{name} (attributes offset by 64)"));
                     return;
                 }
                 for zi in 0..27 {
                     check_interp::<f32>(t, zi, r, name);
                     if zi % 2 == 0 || !quick { check_interp::<(f32, Vec2)>(t, zi, r, name); }
                     if zi % 4 == 1 || !quick { check_interp::<f32>(t, zi + 27, r, name); check_interp::<f32>(t, zi + 54, r, name); }
+                    if zi % 9 == 4 { check_interp::<f32>(t, zi + 81, r, name); }
                     if zi % 13 == 5 || (!quick && zi % 3 == 1) { check_interp::<(f32, Vec2)>(t, zi + 27, r, name); check_interp::<(f32, Vec2)>(t, zi + 54, r, name); }
                     if zi % 13 == 5 || (!quick && zi % 3 == 1) { check_interp::<Vec2>(t, zi, r, name); check_interp::<Vec3>(t, zi, r, name); check_interp::<Color3f>(t, zi, r, name); check_interp::<Color4f>(t, zi, r, name); check_interp::<Point2>(t, zi, r, name); check_interp::<re::math::Point3>(t, zi, r, name); check_interp::<re::math::Angle>(t, zi, r, name); }
                 }
